@@ -27,7 +27,12 @@ def match(violation: dict[str, Any], entries: list[dict[str, Any]]) -> dict[str,
             continue
         if e.get("family") != violation.get("family"):
             continue
-        if e.get("kind") != violation.get("kind"):
+        kinds = e.get("kind")
+        kinds = kinds if isinstance(kinds, list) else [kinds]
+        if not any(fnmatch.fnmatchcase(str(violation.get("kind")), str(k)) for k in kinds):
+            continue
+        prog_pat = e.get("program")
+        if prog_pat is not None and not fnmatch.fnmatchcase(str(violation.get("program", "")), prog_pat):
             continue
         classes = e.get("classes")
         if classes is not None and not any(
